@@ -538,6 +538,51 @@ def clause_f(facts, rep):
     rep.require(n >= 6, 'C13.f: transfer obligations found: %d' % n)
 
 
+def clause_release_order(facts, rep):
+    """A node method that releases what `this` owns (destroy()) while it also takes another node by reference must be
+    finished with that other node before the release: the documented use `n = std::move(n[i])` passes a descendant of
+    `this`, whose storage is part of what destroy() frees (DNode::operator=(DNode&&): "rhs could be used after free if
+    it's a sub-node of this").  Only rvalue-reference parameters (the move forms) are held to this: CopyFrom(n[i]) of an own
+    descendant does destroy() first, as RapidJSON's does, and is not a use the library documents.  Typestate over the CFG: no use of the node parameter is reachable from a destroy() on this."""
+    n = 0
+    for f in facts.functions:
+        if not f.blocks or 'DNode' not in (f.cls_qn or '') or not is_s(f):
+            continue
+        ps = [p_ for p_ in f.params if '&&' in (p_.get('t') or '') and ('DNode' in p_['t'] or 'GenericNode' in p_['t']) and 'Allocator' not in p_['t'].split('<')[0]]
+        if not ps:
+            continue
+        rel = [(bid, i) for bid, i, st, e in f.walk() if e.get('k') == 'call' and e.get('cname') == 'destroy' and (e.get('obj') or {}).get('k') == 'this']
+        if not rel:
+            continue
+        rep.fn(f)
+        order = {}
+        for bid, i, st in f.stmts():
+            order.setdefault(bid, []).append(i)
+        for p_ in ps:
+            n += 1
+            bad = None
+            for rb, ri in rel:
+                # statements after the release in its block, then every block reachable from it
+                seen, todo = set(), [s_ for s_ in f.blocks[rb]['succs'] if s_ is not None]
+                while todo:
+                    b_ = todo.pop()
+                    if b_ in seen:
+                        continue
+                    seen.add(b_)
+                    todo += [s_ for s_ in f.blocks[b_]['succs'] if s_ is not None]
+                for bid, i, st, e in f.walk():
+                    later = (bid == rb and order[bid].index(i) > order[bid].index(ri)) or bid in seen
+                    if later and e.get('k') == 'ref' and e.get('id') == p_['id']:
+                        bad = (st, e)
+                        break
+                if bad:
+                    break
+            rep.check(bad is None, 'E8.release-order', f.qn, 'no use of the node parameter %s after destroy() of this' % p_['name'], f.loc,
+                      ('%s (%s) reads %s after this->destroy(): when %s is a descendant of this (n = std::move(n[i])) its storage has just been freed' %
+                       (show(bad[0])[:80], locline(bad[1].get('loc', f.loc)), p_['name'], p_['name'])) if bad else '', facts.config)
+    rep.require(n >= 1, 'C13: node methods that release this while holding another node: %d' % n)
+
+
 def clause_g(facts, rep):
     """Lifetime of the document's string buffers: nodes hold views into str_ / schema_str_ (kStringCopy), so a buffer
     may be handed to Free only after the nodes of this document were destroyed on the same path (destroyDom's ~DNode,
@@ -725,6 +770,7 @@ def run(rep, tier):
         clause_e(facts, rep)
         clause_f(facts, rep)
         clause_g(facts, rep)
+        clause_release_order(facts, rep)
         clause_h(facts, rep)
         clause_dead_slots(facts, rep)
     # 'released exactly once' for the container mutation API: the bounded exploration of C12 with its allocation ledger
